@@ -95,7 +95,11 @@ func mutateInsert(current, value interface{}) (interface{}, interface{}) {
 	}
 	if vc.Kind() == reflect.Map && vv.Kind() == reflect.Map {
 		if vc.IsNil() && vv.Len() > 0 {
-			return value, value
+			// start from an empty map instead of handing out the mutation
+			// argument both as the new value and as the difference: later
+			// mutations of the same column modify them independently
+			vc = reflect.MakeMapWithSize(vv.Type(), vv.Len())
+			current = vc.Interface()
 		}
 		diff := reflect.MakeMap(vc.Type())
 		iter := vv.MapRange()
